@@ -68,12 +68,13 @@ Definition zu (n : int) : Z := Uint63.to_Z n.
 Definition zb (hi lo : int) : Z := Uint63.to_Z hi * 4611686018427387904 + Uint63.to_Z lo.
 
 (* ------------------------------------------------------------------ pure statistics functions *)
-(* the CPU expression of cpu_statistics.  CURRENT source: `100.0 * work / total` = (100.0 * work) / total *)
+(* the CPU expression of cpu_statistics.
+   OLD source (before the fix of F25): `100.0 * work / total` = (100.0 * work) / total *)
 Definition cpu_pct_current (work total : float) : float := fdivide (fmul f100 work) total.
-(* candidate fix: `100.0 * (work / total)` *)
+(* source since the fix: `100.0 * (work / total)` *)
 Definition cpu_pct_fixed (work total : float) : float := fmul f100 (fdivide work total).
 (* ONE-LINE SWITCH: the expression used by the model (must follow /repo) *)
-Definition cpu_pct : float -> float -> float := cpu_pct_current.
+Definition cpu_pct : float -> float -> float := cpu_pct_fixed.
 
 Definition jiffies := (float * float)%type.   (* (work, idle) *)
 
@@ -615,7 +616,8 @@ Definition aligned_pshape (sh : pshape) : bool :=
 Definition f_le (a b : float) : bool := PrimFloat.leb a b.
 Definition f1 : float := 1%float.
 Definition cpu_in_range (v : float) : bool := f_le f0 v && f_le v f100.
-(* what the current expression `100.0 * work / total` can return outside [0,100] (F25):
+(* what the expression `100.0 * work / total` (cpu_statistics before its fix; still the shape of
+   cpu_process_statistics) can return outside [0,100] (F25):
    100 + ulp (the product is rounded before the division), and inf / NaN when `100.0 * work` overflows
    (work >= 2^1017; 2^1024 / 100 > 2^1017) *)
 Definition cpu_f25 (v work : float) : bool :=
@@ -654,7 +656,7 @@ Definition hspec_inst := (float * option hsample)%type.
 
 (* one instance, one push. in_f24: the stream belongs to the class of F24 (CPU entries shrink).
    Returns (accepted, next spec state). *)
-Definition hspec_check (depth : Z) (in_f24 allow_f25 : bool) (si : hspec_inst) (s : hsample) (o : hout)
+Definition hspec_check (depth : Z) (in_f24 : bool) (si : hspec_inst) (s : hsample) (o : hout)
   : bool * hspec_inst :=
   let period := fst si in
   match o, snd si with
@@ -662,7 +664,7 @@ Definition hspec_check (depth : Z) (in_f24 allow_f25 : bool) (si : hspec_inst) (
   | HNone, Some _ => (true, si)
   | HPoint (upt, cpu, mem, net, disk, usage), Some r =>
       (gate period (s_now s) (s_now r)                                  (* period_gate *)
-       && cpu_values_ok allow_f25 cpu (s_cpu s) (s_cpu r)               (* cpu_in_range *)
+       && cpu_values_ok false cpu (s_cpu s) (s_cpu r)                   (* cpu_in_range, no allowance *)
        && (if f_le f1 period then rates_sane net && rates_sane disk else true)   (* io_rates_sane *)
        && no_point_for_wrapped (s_net s) (s_net r) net
        && no_point_for_wrapped (s_disk s) (s_disk r) disk,
@@ -680,19 +682,19 @@ Definition hshape_check (depth : Z) (in_f24 : bool) (sh : hshape) : bool :=
   && (if in_f24 then true else aligned_core sh).
 
 (* zip the outcomes with the spec instances; instances beyond the outcomes were not reached *)
-Fixpoint hspec_insts (depth : Z) (in_f24 allow_f25 : bool) (sis : list hspec_inst) (s : hsample) (outs : list hout)
+Fixpoint hspec_insts (depth : Z) (in_f24 : bool) (sis : list hspec_inst) (s : hsample) (outs : list hout)
   : bool * list hspec_inst :=
   match sis, outs with
   | si :: sr, o :: orest =>
-      let c := hspec_check depth in_f24 allow_f25 si s o in
-      let rr := hspec_insts depth in_f24 allow_f25 sr s orest in
+      let c := hspec_check depth in_f24 si s o in
+      let rr := hspec_insts depth in_f24 sr s orest in
       (fst c && fst rr, snd c :: snd rr)
   | _, _ => (true, sis)
   end.
 
 Definition hspec := alist (list hspec_inst).
 
-Fixpoint hspec_run (periods : list float) (depth : Z) (in_f24 allow_f25 : bool) (sp : hspec)
+Fixpoint hspec_run (periods : list float) (depth : Z) (in_f24 : bool) (sp : hspec)
                    (ops : list (Z * hsample)) (steps : list hstep_obs) : bool :=
   match ops, steps with
   | (ident, s) :: r, (outs, shapes, _) :: rsteps =>
@@ -700,10 +702,10 @@ Fixpoint hspec_run (periods : list float) (depth : Z) (in_f24 allow_f25 : bool) 
                  | Some l => l
                  | None => map (fun p => (p, None)) (dedup_periods [] periods)
                  end in
-      let c := hspec_insts depth in_f24 allow_f25 sis s outs in
+      let c := hspec_insts depth in_f24 sis s outs in
       fst c && Nat.eqb (length shapes) (length sis)
       && forallb (hshape_check depth in_f24) shapes
-      && hspec_run periods depth in_f24 allow_f25 (aset ident (snd c) sp) r rsteps
+      && hspec_run periods depth in_f24 (aset ident (snd c) sp) r rsteps
   | _, _ => true
   end.
 
@@ -719,19 +721,16 @@ Fixpoint in_f24_from (first : alist Z) (ops : list (Z * hsample)) : bool :=
   end.
 Definition in_f24 (ops : list (Z * hsample)) : bool := in_f24_from [] ops.
 
-Definition hcase_spec_ok (allow_f24 allow_f25 : bool) (c : hcase) : bool :=
+Definition hcase_spec_ok (allow_f24 : bool) (c : hcase) : bool :=
   match c with
-  | (periods, depth, ops, steps, _) =>
-      hspec_run periods depth (allow_f24 && in_f24 ops) allow_f25 [] ops steps
+  | (periods, depth, ops, steps, _) => hspec_run periods depth (allow_f24 && in_f24 ops) [] ops steps
   end.
 
-(* failing inputs outside the known classes *)
-Definition hspec_violations (cs : list hcase) : list nat := find_idx (fun c => negb (hcase_spec_ok true true c)) cs.
-(* inside the class of F24 / F25: accepted with the class allowance, refused without *)
+(* failing inputs outside the known class (a CPU value outside [0,100] is a violation: F25 is fixed) *)
+Definition hspec_violations (cs : list hcase) : list nat := find_idx (fun c => negb (hcase_spec_ok true c)) cs.
+(* inside the class of F24: accepted with the class allowance, refused without *)
 Definition hknown_f24 (cs : list hcase) : list nat :=
-  find_idx (fun c => hcase_spec_ok true true c && negb (hcase_spec_ok false true c)) cs.
-Definition hknown_f25 (cs : list hcase) : list nat :=
-  find_idx (fun c => hcase_spec_ok true true c && negb (hcase_spec_ok true false c)) cs.
+  find_idx (fun c => hcase_spec_ok true c && negb (hcase_spec_ok false c)) cs.
 
 (* ---------- process side ---------- *)
 Definition pspec_inst := (float * option psample)%type.
@@ -814,15 +813,29 @@ Definition pcase_spec_ok (c : pcase) : bool :=
 Definition pspec_violations (cs : list pcase) : list nat := find_idx (fun c => negb (pcase_spec_ok c)) cs.
 
 (* ---------- pure functions ---------- *)
-Definition fcase_spec_ok (allow_f25 : bool) (c : fcase) : bool :=
+(* cpu_process_statistics(latest, ref, host_work): non-decreasing finite process counter whose increase does
+   not exceed a finite positive host work *)
+Definition proc_counters_ok (latest ref host : float) : bool :=
+  f_le f0 ref && f_le ref latest && f_is_finite latest
+  && f_le (fsub latest ref) host && f_is_finite host && PrimFloat.ltb f0 host.
+
+(* allow_proc: allowance of the known class of cpu_process_statistics (same expression shape as F25) *)
+Definition fcase_spec_ok (allow_proc : bool) (c : fcase) : bool :=
   match c with
-  | FCpu l r e => cpu_values_ok allow_f25 e l r
+  | FCpu l r e => cpu_values_ok false e l r
   | FRate n d e =>
       if Z.leb 0 n && Z.ltb n 18446744073709551616 && f_le f1 d
       then match e with FOk x => rate_sane x | FCrash _ => false end
       else true
+  | FProcCpu l r h e =>
+      if proc_counters_ok l r h
+      then match e with
+           | FOk v => cpu_in_range v || (allow_proc && cpu_f25 v (fsub l r))
+           | FCrash _ => false
+           end
+      else true
   | _ => true
   end.
 Definition fspec_violations (cs : list fcase) : list nat := find_idx (fun c => negb (fcase_spec_ok true c)) cs.
-Definition fknown_f25 (cs : list fcase) : list nat :=
+Definition fknown_proc_cpu (cs : list fcase) : list nat :=
   find_idx (fun c => fcase_spec_ok true c && negb (fcase_spec_ok false c)) cs.
